@@ -225,6 +225,12 @@ def drive_b(rec, n, full, quick):
                 bits = 61 if dt == "i" else 50
                 big = np.array([rng.randrange(-(1 << bits), 1 << bits) for _ in range(n)], dtype=np.int64) \
                     if n <= 64 else (probe * rng.randrange(1, 1 << (40 if dt == "i" else 30)) + 0)
+                if dt == "i" and n >= 2:
+                    # the maps are signed permutations on the 64-bit words themselves: the most negative and the most positive values
+                    # travel like any other (negation wraps), wherever they sit
+                    big = big.copy()
+                    big[0], big[n - 1] = -(1 << 63), (1 << 63) - 1
+                    big[rng.randrange(n)] = -(1 << 63)
                 g2 = run_kernel(L, nm, ip, dt, n, p, big)
                 scaled += 1
                 if g2 is None or not np.array_equal(g2, ref_map_np(kind, n, p, big)):
